@@ -177,8 +177,9 @@ def gen_invocation(rng, sh: G.Shape, fun=None, level=None) -> Optional[dict]:
     ties = f == "rank" and rng.random() < 0.5
     om = None if (level == "ds" or f == "rank") else [inv["operand"]]
     part, order, win = gen_spec(rng, sh, windowed=f in WINDOWED, ties=ties, ord_measures=om)
-    if f == "ratio_to_report":
+    if f == "ratio_to_report":     # grammar: ratio_to_report(x over (partition by ...)): the partition clause is mandatory, nothing else is allowed
         order, win = [], None
+        part = part or ["Id_1"]
     if f in ("lag", "lead", "rank"):
         win = None
     inv.update({"part": part, "ord": order, "win": win, "ties": ties, "asc_kw": rng.random() < 0.3})
